@@ -193,7 +193,9 @@ fn run_partition(x: &[u64], parts: &[Vec<Vec<usize>>], trace: bool) -> CaseResul
 
 /// One record per packet in a given order, one packet lost; afterwards a scripted responder
 /// answers exactly the question names the daemon asks (label-exact, like a real responder).
-fn run_loss(order: &[usize], lost: usize, shape: usize, trace: bool) -> CaseResult {
+fn run_loss(order: &[usize], lost: usize, shape: usize, deaf: u64, trace: bool) -> CaseResult {
+    // deaf: the responder lets the first `deaf` rounds of questions about a name go unanswered (the daemon
+    // asks up to three times)
     let mut res = CaseResult::default();
     let i = make_inst(shape, false);
     let mut w = World::one(lay_v4());
@@ -215,6 +217,7 @@ fn run_loss(order: &[usize], lost: usize, shape: usize, trace: bool) -> CaseResu
     let owned: Vec<Record> = i.all(120);
     let mut scanned = w.log.len();
     let mut followups: Vec<(u64, Msg)> = vec![];
+    let mut asked_at: std::collections::BTreeMap<String, Vec<u64>> = std::collections::BTreeMap::new();
     let end = w.now + 6000;
     loop {
         // answer the queries sent since the last scan
@@ -226,6 +229,15 @@ fn run_loss(order: &[usize], lost: usize, shape: usize, trace: bool) -> CaseResu
                         followups.push((e.t, m.clone()));
                         let mut recs = vec![];
                         for q in &m.questions {
+                            if q.qtype != T_PTR {
+                                let times = asked_at.entry(dotted(&lower(&q.name))).or_default();
+                                if !times.contains(&e.t) {
+                                    times.push(e.t);
+                                }
+                                if times.len() as u64 <= deaf {
+                                    continue; // this round is lost
+                                }
+                            }
                             for r in &owned {
                                 // a responder matches names case-insensitively, label by label
                                 if name_eq_ci(&r.name, &q.name) && (q.qtype == T_ANY || q.qtype == r.rtype) && !recs.contains(r) {
@@ -276,7 +288,7 @@ fn run_loss(order: &[usize], lost: usize, shape: usize, trace: bool) -> CaseResu
                 if !wrong_labels {
                     res.viols.push(viol(
                         format!("C04|not-resolved-after-a-lost-packet-although-follow-ups-were-answered|{shape_tag}"),
-                        format!("order {order:?} lost {lost}; queries {:?}; events {:?}", followups.iter().map(|(t, m)| (t - T0, m.summary())).collect::<Vec<_>>(), evs.iter().map(|(t, e)| (t - T0, format!("{e:?}"))).collect::<Vec<_>>()),
+                        format!("order {order:?} lost {lost}, first {deaf} rounds of questions unanswered; queries {:?}; events {:?}", followups.iter().map(|(t, m)| (t - T0, m.summary())).collect::<Vec<_>>(), evs.iter().map(|(t, e)| (t - T0, format!("{e:?}"))).collect::<Vec<_>>()),
                     ));
                 }
             }
@@ -587,14 +599,14 @@ pub fn check(tier: &str) -> i32 {
     rep.require("own-service-through-multicast-loop", "own_service_cases");
 
     let perms = permutations4();
-    let ldims = [24u64, 4, nshapes];
+    let ldims = [24u64, 4, nshapes, 3];
     let perms2 = perms.clone();
     let p2 = FnPart {
         name: "single-loss-with-follow-ups".into(),
-        rule: "the 24 one-record-per-packet orders x each single packet lost x 6 name shapes, followed by a scripted responder that answers exactly the names asked".into(),
+        rule: "the 24 one-record-per-packet orders x each single packet lost x 6 name shapes, followed by a scripted responder that answers exactly the names asked, from the first, second or third time a name is asked about".into(),
         n: product(&ldims),
-        describe: Box::new(move |i| { let x = unrank(i, &ldims); format!("order {:?} lost index {} shape {}", perms2[x[0] as usize], x[1], shapes()[x[2] as usize].0) }),
-        run: Box::new(move |i, tr| { let x = unrank(i, &ldims); run_loss(&perms[x[0] as usize], x[1] as usize, x[2] as usize, tr) }),
+        describe: Box::new(move |i| { let x = unrank(i, &ldims); format!("order {:?} lost index {} shape {} unanswered rounds {}", perms2[x[0] as usize], x[1], shapes()[x[2] as usize].0, x[3]) }),
+        run: Box::new(move |i, tr| { let x = unrank(i, &ldims); run_loss(&perms[x[0] as usize], x[1] as usize, x[2] as usize, x[3], tr) }),
     };
     rep.run_part(&p2, Duration::from_secs(300));
 
